@@ -68,7 +68,17 @@ class C02Scenario(ChangeScenario):
             kids = self.children(hid)
             return hid in cyc['failed'] or (hid in cyc['done'] and all(k in cyc['done'] for k in kids))
 
+        resume_ids = {h['id'] for h in self.params['handlers'] if h['on'] == 'resume'}
+        resumed: dict[tuple[str, str, str], float] = {}   # (process, uid, resume handler) -> when it succeeded
+
         for t, k, p in env.obs:
+            if k == 'call' and p['id'] in resume_ids and p['outcome'].split(',')[0] == 'ok':
+                # (e) a resume handler's recorded success holds for the process, whatever cause the cycle continues under
+                key = (p['op'], p['uid'], p['id'])
+                if key in resumed and not disturbed:
+                    out.append(self.viol(env, 'resume-rerun', f"t={t}: resume handler {p['id']} succeeded again (retry={p['retry']}, reason={p.get('reason')}) in process "
+                                                              f"{p['op']}; it had succeeded at t={resumed[key]}", clause='a', how='across-superseding-cause'))
+                resumed.setdefault(key, t)
             if k == 'kill' or (k == 'srv' and p.get('fault')) or k == 'stop':
                 cycles.clear()  # in-memory knowledge is gone / a write was lost: re-derive from records
                 if k != 'stop':
@@ -117,8 +127,10 @@ class C02Scenario(ChangeScenario):
                         cyc['failed'].add(hid)
                 else:
                     cyc['done'].discard(hid)
-                sel = self.selected(reason) + ([h['id'] for h in self.params['handlers'] if h['on'] == 'resume'] if has_resume and reason != 'resume' else [])
-                must = self.selected(reason)
+                # resume handlers mixed into this cycle (they carry a record in the view, or ran in it) have to finish with it
+                cyc.setdefault('seen', set()).add(hid)
+                mixed = [h for h in resume_ids if reason != 'resume' and (h in recs or h in cyc['seen'])]
+                must = self.selected(reason) + mixed
                 if must and all(is_final(cyc, h) for h in must):
                     cyc['closing'] = True
                 continue
@@ -226,6 +238,15 @@ def scenarios(tier: str) -> tuple[list[C02Scenario], list[C02Scenario], list[C02
                     dict(id='u1', on='update', script=['temp', 'ok'])]
         user = base_user + [(2.0, 'restart'), (20.0, 'spec', 'a', 2), (21.0, 'restart')]
         timing.append(C02Scenario(handlers=handlers, lifecycle=lc, user=user, settings=settings, horizon=50.0))
+    # 6. a resume cycle (one resume handler done, one waiting for its retry) superseded by an essential change
+    for lc in ('asap', 'one_by_one'):
+        handlers = [dict(id='c1', on='create', script=['ok']), dict(id='r1', on='resume', script=['ok']),
+                    dict(id='r2', on='resume', script=['temp', 'ok']), dict(id='u1', on='update', script=['ok'])]
+        for edit in (('label', 'a', 'l', 'v'), ('spec', 'a', 2)):
+            user = base_user + [(10.0, 'restart'), (11.0, *edit)]
+            plain.append(C02Scenario(handlers=handlers, lifecycle=lc, user=user, settings=settings, horizon=40.0,
+                                     delays=False, early_user=False, time_dev=False))
+            timing.append(C02Scenario(handlers=handlers, lifecycle=lc, user=user, settings=settings, horizon=40.0))
     return plain, timing, crash
 
 
